@@ -51,7 +51,8 @@ type verifAuth struct {
 		ExpiresIn    int64  `json:"expires_in"`
 		Email        string `json:"email"`
 	}
-	Log []string
+	Log           []string
+	ProfileGroups []string // if set: the groups /profile reports (instead of an arbitrary list)
 }
 
 func (a *verifAuth) answer(name string, ans *verifAnswer, okStatus int, body func(bad bool) []byte) (*http.Response, error) {
@@ -91,6 +92,9 @@ func (a *verifAuth) RoundTrip(req *http.Request) (*http.Response, error) {
 	case "/" + verifSlug + "/profile":
 		return a.answer("profile", &a.Profile, 200, func(bad bool) []byte {
 			zz.Havoc("profile.body", &a.ProfileBody)
+			if a.ProfileGroups != nil {
+				a.ProfileBody.Groups = a.ProfileGroups // the harness fixes what the directory reports
+			}
 			return zz.JSONBody(&a.ProfileBody, bad)
 		})
 	case "/" + verifSlug + "/redeem":
